@@ -140,7 +140,8 @@ ASSUMPTIONS = [
 NEEDED = {
     "C01": ["invoked", "seeded-not-recomputed", "outside-graph-dependency", "engine-chosen-order", "target-closure"],
     "C02": ["invoked", "missing-reported", "rule-skip-response", "disabled", "none-argument", "group-satisfied-by-one"],
-    "C03": ["failure-recorded", "skip-recorded", "element-calls", "failing-observers", "filed-under-registry-point"],
+    "C03": ["failure-recorded", "skip-recorded", "element-calls", "failing-observers", "filed-under-registry-point",
+            "time-limited-datasource-attempt-failed"],
     "C04": ["several-subgraphs", "pool-threads", "cross-run-comparisons", "engine-chosen-order"],
 }
 
@@ -181,6 +182,10 @@ def trace_features(traces):
                     bump("none-argument")
                 if p["grp"] and any(sum(1 for a in c["args"] if a["k"] != "none") < len(c["args"]) for c in e["calls"]):
                     bump("group-satisfied-by-one")
+            if t.get("host") and p["kind"] == "datasource" and e["calls"]:
+                bump("time-limited-datasource-attempt")
+                if e["recs"] or e["v"]["k"] == "absent":
+                    bump("time-limited-datasource-attempt-failed")
             if e["m"]["set"]:
                 bump("missing-reported")
             if e["v"]["k"] == "skipresp":
